@@ -115,6 +115,7 @@ def run_text(ctx, pydsdl, deps, text, kind, workdir, api):
     GT.write_universe(deps, base)
     root = base / GT.ROOT
     root.mkdir(parents=True, exist_ok=True)
+    (root / "Svc.1.0.dsdl").write_text("uint8 a\n@sealed\n---\nuint8 b\n@extent 64\n")  # a service that mutants may refer to
     main = root / "Main.1.0.dsdl"
     main.write_bytes(text.encode("utf-8"))
     case = {"deps": deps, "text": text, "kind": kind, "api": api}
